@@ -230,6 +230,12 @@ class SimpleExpression(ApplyExpression[Result]):
         super().__init__(args, kwargs)
         self.func_name = func_name
 
+    def is_valid(self) -> bool:
+        return all(
+            not isinstance(value, Value) or value.is_valid()
+            for value in iter_nested_value((self.args, self.kwargs))
+        )
+
     def __repr__(self) -> str:
         if self.func_name in _operator_name2symbol and len(self.args) == 2:
             # Binary operator.
